@@ -28,6 +28,9 @@ type Error struct {
 	Kind ErrKind
 	Pos  int
 	Msg  string
+	// InLST: the error was found inside a top-level symbol-table struct (content
+	// a reader consumes itself and may legitimately skip without validating).
+	InLST bool
 }
 
 func (e *Error) Error() string {
@@ -82,7 +85,7 @@ type decoder struct {
 }
 
 func (d *decoder) errf(k ErrKind, pos int, f string, a ...interface{}) *Error {
-	return &Error{k, pos, fmt.Sprintf(f, a...)}
+	return &Error{Kind: k, Pos: pos, Msg: fmt.Sprintf(f, a...), InLST: !d.user}
 }
 
 // Decode strictly decodes an Ion 1.0 binary stream.
